@@ -235,8 +235,12 @@ def ecdh_kdf(hid, zz, keylen, oid, kdf_hash, kek_alg, fingerprint20):
     return digest(hid, b'\x00\x00\x00\x01' + zz + param)[:keylen]
 
 
-def pkcs5_pad(m):
+def pkcs5_pad(m, total=None):
+    """RFC 6637 section 8: padded to 8-octet granularity; a sender MAY instead pad every session key block to the same
+    40 octets (21 / 13 / 5 padding octets for 128 / 192 / 256-bit keys) so that its length hides the cipher"""
     n = 8 - (len(m) % 8)
+    if total is not None and total > len(m) and (total - len(m)) < 256 and total % 8 == 0:
+        n = total - len(m)
     return m + bytes([n]) * n
 
 
@@ -244,7 +248,7 @@ def pkcs5_unpad(m):
     if not m:
         raise AlgoError('empty')
     n = m[-1]
-    if n < 1 or n > 8 or n > len(m) or m[-n:] != bytes([n]) * n:
+    if n < 1 or n > len(m) or m[-n:] != bytes([n]) * n:
         raise AlgoError('bad padding')
     return m[:-n]
 
